@@ -99,6 +99,17 @@ var corpus = []corpusCase{
 	fixed("a fragment whose name begins with two underscores (field F__, type __FFragment), next to a fragment F", &doc{
 		ops: []*opDef{q("K10", fld("node", fld("__typename"), sp("__F"), sp("F")))},
 		frags: []*fragDef{{name: "__F", cond: "User", sels: []*sel{fld("login")}}, {name: "F", cond: "User", sels: []*sel{fld("name")}}}}),
+	fixed("directives: @include on an inline fragment, variable-driven @skip on a spread and on a field, @tag on the operation and a fragment definition", func() *doc {
+		inl := on("User", fld("login"))
+		inl.dir = &dirUse{c: true}
+		spr := sp("F")
+		spr.dir = &dirUse{skip: true, v: "v0"}
+		nm := fld("title")
+		nm.dir = &dirUse{v: "v0"}
+		op := q("K12", fld("node", fld("__typename"), fld("id"), inl, spr, on("Org", fld("id"), nm)))
+		op.vars, op.tag = []string{"v0"}, true
+		return &doc{ops: []*opDef{op}, frags: []*fragDef{{name: "F", cond: "User", sels: []*sel{fld("name")}, tag: true}}}
+	}()),
 	fixed("a fragment named _ (field _)", &doc{
 		ops:   []*opDef{q("K11", fld("node", fld("__typename"), sp("_")))},
 		frags: []*fragDef{{name: "_", cond: "User", sels: []*sel{fld("login")}}}}),
